@@ -37,6 +37,9 @@ static errcode_t stub_open(const char *name, int flags, io_channel *channel)
 	(void) name;
 	vf_nopen++;
 	vf_open_ioflags = flags;
+#ifdef PREFIX	/* quick tier: the manager's open() fails, only the flag mapping and the error exit are executed */
+	return EXT2_ET_BAD_DEVICE_NAME;
+#endif
 	if (IN.open_rc)
 		return IN.open_rc;
 	*channel = &vf_io;
